@@ -257,7 +257,7 @@ Definition glue_C08 (k : string) (a o : list value) : option verdict :=
     | _, [VZ alive; VZ sentinel] =>
         Some (relational true (C08_alive_ok alive [sentinel]))
     | _, _ => None end
-  else if (is k "srv.scion") || (is k "srv.scionnts") || (is k "srv.scmp") || (is k "srv.scionauth") || (is k "srv.quicke") || (is k "cli.scionnts") || (is k "cli.overlap") || (is k "cli.kestall") || (is k "srv.kefd") || (is k "srv.scionpar") || (is k "srv.dispatcher") || (is k "cli.kestallquic") || (is k "srv.ip6") || (is k "cli.ip6") || (is k "srv.scionnodaemon") || (is k "cli.ipopt") || (is k "srv.ntske") || (is k "srv.kestall") || (is k "srv.quic") || (is k "cli.ip") || (is k "cli.scion") || (is k "cli.nts") then
+  else if (is k "srv.scion") || (is k "srv.scionnts") || (is k "srv.scmp") || (is k "srv.scionauth") || (is k "srv.quicke") || (is k "cli.scionnts") || (is k "cli.overlap") || (is k "cli.kestall") || (is k "cli.kefdleak") || (is k "srv.kefd") || (is k "srv.scionpar") || (is k "srv.dispatcher") || (is k "cli.kestallquic") || (is k "srv.ip6") || (is k "cli.ip6") || (is k "srv.scionnodaemon") || (is k "cli.ipopt") || (is k "srv.ntske") || (is k "srv.kestall") || (is k "srv.quic") || (is k "cli.ip") || (is k "cli.scion") || (is k "cli.nts") then
     (* outs = alive, list of sentinel results *)
     match o with
     | [VZ alive; VL ss] =>
